@@ -123,8 +123,15 @@ type metaWorld struct {
 	ol *world.OrderedLoader
 }
 
+// newMetaWorld: wrap[0] = storage wrapper, wrap[1] = both roots valid now (the node then holds two
+// valid chains and ClientConfigs produces two configurations)
 func newMetaWorld(storage string, wrap ...bool) *metaWorld {
-	w := &metaWorld{s: world.MustServer(world.ServerCfg{Backend: storage, StorageWrap: len(wrap) > 0 && wrap[0]})}
+	both := len(wrap) > 1 && wrap[1]
+	w := &metaWorld{s: world.MustServer(world.ServerCfg{Backend: storage, StorageWrap: len(wrap) > 0 && wrap[0], NoRoots: both})}
+	if both {
+		const day = 24 * time.Hour
+		craftRoots(w.s, -10*day, 4*day, -3*day, 11*day)
+	}
 	for _, np := range []**world.Node{&w.A, &w.B} {
 		er, err := world.Enroll(w.s, world.FlowAuthorize, false, nil, nil, nil)
 		if err != nil {
@@ -179,7 +186,18 @@ func (w *metaWorld) run(c *engine.Ctx, mc metaCase) {
 			r.Broken(fmt.Sprintf("ClientConfigs: %v (%d configs)", err, len(cfgs)))
 			return
 		}
-		cfg = cfgs[0]
+		cfg = cfgs[rng.Intn(len(cfgs))]
+		r.Count(fmt.Sprintf("honest_client_configs:%d", len(cfgs)), 1)
+		// what the node asked to have listed must be what its configuration lists
+		var listed []string
+		for _, e := range cfg.NextProtos {
+			if !strings.HasPrefix(e, nodeenrollment.AuthenticateNodeNextProtoV1Prefix) && !strings.HasPrefix(e, nodeenrollment.CertificatePreferenceV1Prefix) {
+				listed = append(listed, e)
+			}
+		}
+		if len(listed) != len(extras) || (len(extras) > 0 && !reflect.DeepEqual(listed, extras)) {
+			r.Violation("client-config-extras-differ", fmt.Sprintf("the configuration ClientConfigs built lists %d extra protocols, the node asked for %d (%d configurations)", len(listed), len(extras), len(cfgs)), mc)
+		}
 	case "rogue":
 		// built by hand: valid nonce signature by A, state signature as chosen
 		nonce := world.RandBytes(nodeenrollment.NonceSize)
@@ -415,7 +433,7 @@ func runMeta(c *engine.Ctx) engine.Result {
 			n++
 			go func(sto string, list []metaCase, p int) {
 				defer func() { done <- struct{}{} }()
-				w := newMetaWorld(sto, p%2 == 1)
+				w := newMetaWorld(sto, p%2 == 1, p%3 == 2)
 				defer w.close()
 				for i := p; i < len(list); i += workers {
 					w.run(c, list[i])
